@@ -536,7 +536,7 @@ fn random_prog(rng: &mut Rng, nthreads: usize, nops: usize, nobs: usize) -> Vec<
 
 pub fn gen(tier: &str, rng: &mut Rng, out: &mut Vec<String>) {
     let thorough = tier == "thorough";
-    *GEN_DEADLINE.lock().unwrap() = Some((Instant::now() + Duration::from_secs(if thorough { 5400 } else { 240 }), Duration::from_secs(if thorough { 900 } else { 15 })));
+    *GEN_DEADLINE.lock().unwrap() = Some((Instant::now() + Duration::from_secs(if thorough { 2400 } else { 240 }), Duration::from_secs(if thorough { 400 } else { 15 })));
     out.push("c13.stress subject 8 100 20".into());
     out.push("c13.stress single 8 100 20".into());
     if rx_algo() == "nohooks" { return; }
